@@ -3,12 +3,12 @@ package main
 import (
 	"bufio"
 	"bytes"
-	"sort"
 	"context"
 	"encoding/hex"
 	"errors"
 	"fmt"
 	"os"
+	"sort"
 	"strconv"
 	"strings"
 	"sync"
@@ -162,7 +162,12 @@ func (w *world) execCtx(ctx context.Context, f []string) string {
 		return strings.Join(w.trace, " ")
 	case "conc":
 		w.cops = nil
-		w.parks = parseParks(f[1])
+		w.yieldSign = strings.HasPrefix(f[1], "yield")
+		if w.yieldSign {
+			w.parks = nil
+		} else {
+			w.parks = parseParks(f[1])
+		}
 		return "ok"
 	case "cop":
 		d, _ := strconv.Atoi(f[1])
@@ -324,6 +329,18 @@ func (w *world) execCtx(ctx context.Context, f []string) string {
 		return fmt.Sprintf("%v", w.rules.VerifSyncWrites())
 	case "export":
 		return w.export()
+	case "importsvc":
+		// importsvc <key> <slot> <source> <target>: rules.Service.ImportSlashingProtection on the LIVE service (-1 = absent)
+		var k [48]byte
+		copy(k[:], unhex(f[1]))
+		a, _ := strconv.ParseInt(f[2], 10, 64)
+		b, _ := strconv.ParseInt(f[3], 10, 64)
+		c_, _ := strconv.ParseInt(f[4], 10, 64)
+		err := w.rules.ImportSlashingProtection(ctx, map[[48]byte]*rules.SlashingProtection{k: {HighestProposedSlot: a, HighestAttestedSourceEpoch: b, HighestAttestedTargetEpoch: c_}})
+		if err != nil {
+			return "err"
+		}
+		return "ok"
 	case "check":
 		if w.checker == nil {
 			return "0"
